@@ -233,12 +233,12 @@ func c17Run(n int, useStream bool, inGraph bool, withHandler bool, faults bool, 
 	}
 }
 
-func VerifC17Invoke2()       { c17Run(2, false, false, vchoose("handler", 2) == 1, false, false) }
-func VerifC17Stream2()       { c17Run(2, true, false, vchoose("handler", 2) == 1, false, false) }
-func VerifC17Invoke3()       { c17Run(3, false, false, true, false, false) }
-func VerifC17Stream3()       { c17Run(3, true, false, true, false, false) }
-func VerifC17Faults()        { c17Run(2, vchoose("stream", 2) == 1, false, true, true, false) }
-func VerifC17GraphFaults()   { c17Run(2, vchoose("stream", 2) == 1, true, true, true, false) }
+func VerifC17Invoke2()     { c17Run(2, false, false, vchoose("handler", 2) == 1, false, false) }
+func VerifC17Stream2()     { c17Run(2, true, false, vchoose("handler", 2) == 1, false, false) }
+func VerifC17Invoke3()     { c17Run(3, false, false, true, false, false) }
+func VerifC17Stream3()     { c17Run(3, true, false, true, false, false) }
+func VerifC17Faults()      { c17Run(2, vchoose("stream", 2) == 1, false, true, true, false) }
+func VerifC17GraphFaults() { c17Run(2, vchoose("stream", 2) == 1, true, true, true, false) }
 func VerifC17Sched() {
 	c17FixedNames = true
 	c17Run(3, false, false, true, false, true)
